@@ -2,7 +2,7 @@
    Property theorems only: each closed by [exact] of a lemma proved in Engine/Match*.v. *)
 From Coq Require Import List String Bool.
 From Helm Require Import Common.Assoc Engine.Types Engine.Eff Engine.Ops Engine.Cluster Engine.Seq.
-From Helm Require Import Engine.MatchDefs Engine.MatchUpdate Engine.MatchExamples Engine.MatchRun Engine.MatchOps.
+From Helm Require Import Engine.MatchDefs Engine.MatchUpdate Engine.MatchExamples Engine.MatchRun Engine.MatchOps Engine.MatchSuccess.
 Import ListNotations.
 
 (* kube.Client.update against an API server that rejects nothing ([kfault = None]), for every
@@ -181,3 +181,152 @@ Example C02_uninstall_hypotheses_met :
   model_kept un_world = ["[ConfigMap] a"; "[ConfigMap] b"]%string.
 Proof. exact uninstall_example. Qed.
 Print Assumptions C02_uninstall_hypotheses_met.
+
+(* ---- (B) lifted to the operations of Engine/Ops.v run by the interpreter ----
+   [not_hook fl hks key]: hooks are disabled, or no hook object has this key.
+   The world [w] before the operation is ARBITRARY (any ledger, any cluster content): this
+   covers every history of operations, failed or not, interleaved with out-of-band edits and
+   deletions (made explicit in C02_op_success_matches below).  Hooks may run (and succeed):
+   the statements speak about the objects that are not hook objects. *)
+
+Theorem C02_install_success_matches :
+  forall (rn ns : string) (fl : flags) (cid vid : nat) (mani : list res) (hks : list hook)
+         (hf : option (string * nat)) (wf : bool) (w w' : world) (tr : list tev),
+    f_dry_run fl = false ->
+    NoDup (map rkey mani) ->
+    (forall r, In r mani -> NoDup (akeys (r_fields r))) ->
+    (forall r, In r mani -> not_hook fl hks (rkey r)) ->
+    run_store_op rn ns (mkOp (OpInstall fl cid vid mani hks) (mkSF None None) (mkCF None hf wf)) w = (w', OOk, tr) ->
+    (forall r, In r mani ->
+       exists live', aget (rkey r) (w_objs w') = Some live' /\
+                     fields_sub (r_fields (stamp rn ns r)) live' = true) /\
+    (forall key, in_keys key mani = false -> not_hook fl hks key ->
+       aget key (w_objs w') = aget key (w_objs w)).
+Proof. exact install_matches. Qed.
+Print Assumptions C02_install_success_matches.
+
+(* [upgrade_current]: the revision upgrade.go diffs against (MatchDefs.v) *)
+Theorem C02_upgrade_success_matches :
+  forall (rn ns : string) (fl : flags) (cid vid : nat) (mani : list res) (hks : list hook)
+         (hf : option (string * nat)) (wf : bool) (w w' : world) (tr : list tev),
+    f_dry_run fl = false ->
+    NoDup (map rkey mani) ->
+    (forall r, In r mani -> NoDup (akeys (r_fields r))) ->
+    (forall r, In r mani -> not_hook fl hks (rkey r)) ->
+    run_store_op rn ns (mkOp (OpUpgrade fl cid vid mani hks) (mkSF None None) (mkCF None hf wf)) w = (w', OOk, tr) ->
+    exists current : release,
+      upgrade_current (w_led w) = Some current /\
+      (forall r, In r mani ->
+         exists live', aget (rkey r) (w_objs w') = Some live' /\
+                       fields_sub (r_fields (stamp rn ns r)) live' = true) /\
+      (forall o, In o (manifest current) -> in_keys (rkey o) mani = false -> not_hook fl hks (rkey o) ->
+         match aget (rkey o) (w_objs w) with
+         | Some live => if live_keep live then aget (rkey o) (w_objs w') = Some live
+                        else aget (rkey o) (w_objs w') = None
+         | None => aget (rkey o) (w_objs w') = None
+         end) /\
+      (forall key, in_keys key (manifest current) = false -> in_keys key mani = false -> not_hook fl hks key ->
+         aget key (w_objs w') = aget key (w_objs w)).
+Proof. exact upgrade_matches. Qed.
+Print Assumptions C02_upgrade_success_matches.
+
+(* [rollback_target]: (latest revision, revision rolled back to) as rollback.go picks them *)
+Theorem C02_rollback_success_matches :
+  forall (rn ns : string) (fl : flags) (hf : option (string * nat)) (wf : bool) (w w' : world) (tr : list tev),
+    f_dry_run fl = false ->
+    run_store_op rn ns (mkOp (OpRollback fl) (mkSF None None) (mkCF None hf wf)) w = (w', OOk, tr) ->
+    exists cur pr : release,
+      rollback_target fl (w_led w) = Some (cur, pr) /\
+      (NoDup (map rkey (manifest pr)) ->
+       (forall r, In r (manifest pr) -> NoDup (akeys (r_fields r))) ->
+       (forall r, In r (manifest pr) -> not_hook fl (hooks pr) (rkey r)) ->
+       (forall r, In r (manifest pr) ->
+          exists live', aget (rkey r) (w_objs w') = Some live' /\
+                        fields_sub (r_fields (stamp rn ns r)) live' = true) /\
+       (forall o, In o (manifest cur) -> in_keys (rkey o) (manifest pr) = false -> not_hook fl (hooks pr) (rkey o) ->
+          match aget (rkey o) (w_objs w) with
+          | Some live => if live_keep live then aget (rkey o) (w_objs w') = Some live
+                         else aget (rkey o) (w_objs w') = None
+          | None => aget (rkey o) (w_objs w') = None
+          end) /\
+       (forall key, in_keys key (manifest cur) = false -> in_keys key (manifest pr) = false ->
+          not_hook fl (hooks pr) key -> aget key (w_objs w') = aget key (w_objs w))).
+Proof. exact rollback_matches. Qed.
+Print Assumptions C02_rollback_success_matches.
+
+(* ... for all histories: whatever steps [h] (operations with or without faults, out-of-band
+   [HEdit] steps) lead from ANY initial world [w0] to the world the operation starts in
+   ([world_after] = the last world of [run_history], lemma below), a fault-free install or
+   upgrade of a well-formed chart that returns OOk leaves the cluster as stated above
+   (rollback: C02_rollback_success_matches, uninstall: C02_uninstall_matches, likewise for every world) *)
+Theorem C02_op_success_matches :
+  forall (rn ns : string) (h : list hstep) (w0 : world) (c : opcase) (w' : world) (tr : list tev),
+    oc_sf c = mkSF None None /\ cf_k (oc_cf c) = None ->
+    run_store_op rn ns c (world_after rn ns h w0) = (w', OOk, tr) ->
+    let w := world_after rn ns h w0 in
+    match oc_op c with
+    | OpInstall fl _ _ mani hks =>
+        (f_dry_run fl = false /\ NoDup (map rkey mani) /\
+         (forall r, In r mani -> NoDup (akeys (r_fields r))) /\
+         (forall r, In r mani -> not_hook fl hks (rkey r))) ->
+        (forall r, In r mani ->
+           exists live', aget (rkey r) (w_objs w') = Some live' /\ fields_sub (r_fields (stamp rn ns r)) live' = true) /\
+        (forall key, in_keys key mani = false -> not_hook fl hks key -> aget key (w_objs w') = aget key (w_objs w))
+    | OpUpgrade fl _ _ mani hks =>
+        (f_dry_run fl = false /\ NoDup (map rkey mani) /\
+         (forall r, In r mani -> NoDup (akeys (r_fields r))) /\
+         (forall r, In r mani -> not_hook fl hks (rkey r))) ->
+        exists current, upgrade_current (w_led w) = Some current /\
+        (forall r, In r mani ->
+           exists live', aget (rkey r) (w_objs w') = Some live' /\ fields_sub (r_fields (stamp rn ns r)) live' = true) /\
+        (forall o, In o (manifest current) -> in_keys (rkey o) mani = false -> not_hook fl hks (rkey o) ->
+           match aget (rkey o) (w_objs w) with
+           | Some live => if live_keep live then aget (rkey o) (w_objs w') = Some live
+                          else aget (rkey o) (w_objs w') = None
+           | None => aget (rkey o) (w_objs w') = None
+           end) /\
+        (forall key, in_keys key (manifest current) = false -> in_keys key mani = false -> not_hook fl hks key ->
+           aget key (w_objs w') = aget key (w_objs w))
+    | OpRollback fl =>
+        f_dry_run fl = false ->
+        exists cur pr, rollback_target fl (w_led w) = Some (cur, pr) /\
+        (NoDup (map rkey (manifest pr)) ->
+         (forall r, In r (manifest pr) -> NoDup (akeys (r_fields r))) ->
+         (forall r, In r (manifest pr) -> not_hook fl (hooks pr) (rkey r)) ->
+         (forall r, In r (manifest pr) ->
+            exists live', aget (rkey r) (w_objs w') = Some live' /\ fields_sub (r_fields (stamp rn ns r)) live' = true) /\
+         (forall o, In o (manifest cur) -> in_keys (rkey o) (manifest pr) = false -> not_hook fl (hooks pr) (rkey o) ->
+            match aget (rkey o) (w_objs w) with
+            | Some live => if live_keep live then aget (rkey o) (w_objs w') = Some live
+                           else aget (rkey o) (w_objs w') = None
+            | None => aget (rkey o) (w_objs w') = None
+            end) /\
+         (forall key, in_keys key (manifest cur) = false -> in_keys key (manifest pr) = false ->
+            not_hook fl (hooks pr) key -> aget key (w_objs w') = aget key (w_objs w)))
+    | OpUninstall _ => True
+    end.
+Proof. exact op_success_matches_after. Qed.
+Print Assumptions C02_op_success_matches.
+
+Theorem C02_world_after_is_run_history :
+  forall rn ns h w,
+    world_after rn ns h w = last (map (fun x => fst (fst x)) (run_history rn ns h w)) w.
+Proof. exact world_after_run_history. Qed.
+Print Assumptions C02_world_after_is_run_history.
+
+(* non-vacuity: install {a,b}; out-of-band edit of a (specified field changed, foreign field
+   added); a bystander appears; upgrade to {a'} with a pre-upgrade hook: a is corrected and keeps
+   the foreign field, b is deleted, the bystander stays *)
+Example C02_success_hypotheses_met :
+  fault_free ex_install /\ well_formed_chart no_flags ex_mani1 [] /\
+  fault_free ex_upgrade /\ well_formed_chart no_flags ex_mani2 [ex_hook] /\
+  snd (fst (run_store_op "rel" "default" ex_install (mkW [] []))) = OOk /\
+  let w := world_after "rel" "default" ex_history (mkW [] []) in
+  let '(w', out, _) := run_store_op "rel" "default" ex_upgrade w in
+  out = OOk /\
+  w_objs w' =
+    [("ConfigMap/a", [("d:k", "v2"); ("d:foreign", "f"); (managed_by_key, "Helm"); (rel_name_key, "rel"); (rel_ns_key, "default")]);
+     ("ConfigMap/z", [("d:k", "bystander")]);
+     ("ConfigMap/hk", [("d:h", "0")])]%string.
+Proof. exact success_example. Qed.
+Print Assumptions C02_success_hypotheses_met.
